@@ -15,9 +15,9 @@ import itertools
 import random
 
 SCHEMA = '''
-interface Pet { name: String nick: String! }
-type Dog implements Pet { name: String nick: String! bark: Int friend: Pet friends: [Pet] }
-type Cat implements Pet { name: String nick: String! meow: String friend: Pet }
+interface Pet { name: String nick: String! say(w: String): String }
+type Dog implements Pet { name: String nick: String! bark: Int friend: Pet friends: [Pet] say(w: String = "woof"): String }
+type Cat implements Pet { name: String nick: String! meow: String friend: Pet say(w: String = "meow", n: Int = 2): String }
 interface Node { id: ID }
 interface Resource implements Node { id: ID url: String }
 type Page implements Resource & Node { id: ID url: String title: String }
@@ -46,7 +46,9 @@ PET_ATOMS = ["name", "nick", "... on Dog { bark }", "... on Cat { meow }", "...F
              "...FDog @skip(if: true)", "... on Dog { friend { nick } }", "... on Dog { friends { name } }",
              "__typename", "x: name", "... on Pet { x: nick }",
              "... on Dog { friends { ... on Dog { bark } } }", "... on Dog { friends { ... on Cat { meow } nick } }",
-             "... on Dog { friends { ...FPet } }"]
+             "... on Dog { friends { ...FPet } }",
+             # one field node executed for several runtime types whose argument defaults differ
+             "say", "... on Dog { friends { say } }", "... on Dog { friends { s2: say(w: \"x\") } friend { say } }"]
 
 
 class Boom(Exception):
@@ -60,14 +62,16 @@ def raiser(*_a, **_k):
 def make_data(variant):
     """root value trees (dicts with __typename where abstract)."""
     def dog(depth=0):
-        d = {"__typename": "Dog", "name": "d", "nick": "dn", "bark": 3}
+        d = {"__typename": "Dog", "name": "d", "nick": "dn", "bark": 3,
+             "say": lambda info, **kw: repr(sorted(kw.items()))}
         if depth < 1:
             d["friend"] = cat(depth + 1)
             d["friends"] = [cat(depth + 1), dog(depth + 1), None]
         return d
 
     def cat(depth=0):
-        c = {"__typename": "Cat", "name": None, "nick": "cn", "meow": "m"}
+        c = {"__typename": "Cat", "name": None, "nick": "cn", "meow": "m",
+             "say": lambda info, **kw: repr(sorted(kw.items()))}
         if depth < 1:
             c["friend"] = dog(depth + 1)
         return c
